@@ -194,6 +194,20 @@ func toCanon(v reflect.Value) interface{} {
 
 // mutateField changes exactly one exported, YAML-visible field of the struct value v (a
 // PipelineDef or TaskDef, addressable) and returns a description; "" if nothing could be changed.
+// stamp gives a file the modification time of the simulated clock. Without it the files carry real timestamps
+// while thirty simulated seconds pass in microseconds: a reload that looks at mtimes would see collisions that
+// depend on the real clock (not replayable) and could not happen with thirty real seconds between two polls.
+func stamp(path string) {
+	now := time.Now()
+	_ = os.Chtimes(path, now, now)
+}
+
+func writeStamped(path string, content []byte) error {
+	err := os.WriteFile(path, content, 0o644)
+	stamp(path)
+	return err
+}
+
 func mutateField(g gen, v reflect.Value, taskNames []string) string {
 	var idx []int
 	for i := 0; i < v.NumField(); i++ {
@@ -500,7 +514,7 @@ func (r *reloadRun) execute() error {
 		model[i%len(files)][pipeNames[i]] = genDef(g)
 	}
 	for i, f := range files {
-		if err := os.WriteFile(f, renderFile(model[i]), 0o644); err != nil {
+		if err := writeStamped(f, renderFile(model[i])); err != nil {
 			return err
 		}
 	}
@@ -546,6 +560,9 @@ func (r *reloadRun) execute() error {
 	if err != nil {
 		return err
 	}
+	// the polls do not fall on whole seconds of the simulated clock in every run: an edit, a poll and another edit
+	// can then share one second (what a reload that looks at whole-second mtimes cannot tell apart)
+	time.Sleep([]time.Duration{0, 500 * time.Millisecond, 250 * time.Millisecond}[g.n(3)])
 	app.VerifHandleDefinitionChanges(ctx, cctx, runner, defs)
 	synctest.Wait()
 
@@ -578,6 +595,87 @@ func (r *reloadRun) execute() error {
 	pending := ""    // second half of a torn write
 	pendingFile := ""
 	filesValid := true
+
+	// Reloads in flight. The reload goroutine parks at the hook in front of ReplaceDefinitions' lock: it has read the
+	// files and is about to install what it read. The driver lets it go after the time step - and in one case of three
+	// lets another (valid) edit land first, which is the schedule "a file changes while a reload is in flight".
+	core := newCore()
+	verifhook.Handler = func(point string, ctx []interface{}) {
+		if point == "ReplaceDefinitions" && goid() != core.driver {
+			core.park(point, point, nil, lkNone)
+		}
+	}
+	defer func() { verifhook.Handler = nil }()
+	midEdit := func() string {
+		fi := g.n(len(files))
+		var names []string
+		for n := range model[fi] {
+			names = append(names, n)
+		}
+		sort.Strings(names)
+		if len(names) == 0 {
+			return ""
+		}
+		n := names[g.n(len(names))]
+		pv := reflect.New(reflect.TypeOf(model[fi][n])).Elem()
+		for k := 0; k < 6; k++ {
+			pv.Set(reflect.ValueOf(cloneDef(model[fi][n])))
+			desc := mutateField(g, pv, nil)
+			if q := pv.Interface().(definition.PipelineDef); desc != "" && validDef(withDefaults(q)) == "" {
+				model[fi][n] = q
+				tmp := files[fi] + ".tmp"
+				_ = writeStamped(tmp, renderFile(model[fi]))
+				_ = os.Rename(tmp, files[fi])
+				return "pipeline " + n + ": " + desc
+			}
+		}
+		return ""
+	}
+	// settleReloads releases parked reloads; reports whether an edit landed while one was in flight.
+	settleReloads := func(allowEdit bool) bool {
+		edited := false
+		for i := 0; i < 6; i++ {
+			core.drain()
+			if len(core.parkedQ) == 0 {
+				break
+			}
+			r.stats.Probes["reload_in_flight"]++
+			if allowEdit && !edited && filesValid && r.tape.Pick(3) == 0 {
+				if desc := midEdit(); desc != "" {
+					edited = true
+					r.stats.Faults["edit_during_reload"]++
+					r.logf("edit (%s) lands while a reload is in flight", desc)
+				}
+			}
+			for len(core.parkedQ) > 0 {
+				core.release(core.parkedQ[0], relGo)
+				core.drain()
+			}
+		}
+		return edited
+	}
+	defer func() {
+		for i := 0; i < 3; i++ {
+			settleReloads(false)
+		}
+	}()
+	// advance lets d of simulated time pass. A reload that parks is dealt with at once, at that instant: it never stays
+	// parked while later polls fire (a version that runs reloads side by side under a lock of its own would then block
+	// on that lock, which the bubble cannot see through).
+	advance := func(d time.Duration, allowEdit bool) (edited bool) {
+		deadline := time.Now().Add(d)
+		for time.Until(deadline) > 0 {
+			core.advanceUntilArrival(time.Until(deadline))
+			if settleReloads(allowEdit && !edited) {
+				edited = true
+			}
+		}
+		synctest.Wait()
+		if settleReloads(allowEdit && !edited) {
+			edited = true
+		}
+		return edited
+	}
 	for e := 0; e < r.rs.Edits; e++ {
 		Heartbeat.Add(1)
 		r.step++
@@ -625,7 +723,7 @@ func (r *reloadRun) execute() error {
 			filesValid = true
 			for k, f := range files {
 				if k != fi {
-					_ = os.WriteFile(f, renderFile(model[k]), 0o644)
+					_ = writeStamped(f, renderFile(model[k]))
 				}
 			}
 			r.stats.Probes["valid_single_field_edit"]++
@@ -633,14 +731,13 @@ func (r *reloadRun) execute() error {
 		if torn && len(content) > 4 {
 			r.stats.Faults["torn_write"]++
 			half := len(content) / 2
-			_ = os.WriteFile(files[fi], content[:half], 0o644)
+			_ = writeStamped(files[fi], content[:half])
 			pending, pendingFile = string(content[half:]), files[fi]
 			r.logf("edit %d (%s) on %s: first half written (%d of %d bytes)", e, desc, filepath.Base(files[fi]), half, len(content))
 			// time may pass (and polls happen) while the file is half written
 			d := []time.Duration{0, time.Second, 29 * time.Second, 31 * time.Second, 61 * time.Second}[r.tape.Pick(5)]
 			if d > 0 {
-				time.Sleep(d)
-				synctest.Wait()
+				advance(d, false)
 				r.logf("advance %v with a half-written file", d)
 				checkInstalled(fmt.Sprintf("edit %d, file half written", e), false)
 				r.stats.Probes["poll_during_torn_write"]++
@@ -649,22 +746,23 @@ func (r *reloadRun) execute() error {
 			if err == nil {
 				_, _ = f.WriteString(pending)
 				_ = f.Close()
+				stamp(pendingFile)
 			}
 			pending = ""
 		} else {
 			tmp := files[fi] + ".tmp"
-			_ = os.WriteFile(tmp, content, 0o644)
+			_ = writeStamped(tmp, content)
 			_ = os.Rename(tmp, files[fi])
 		}
 		r.logf("edit %d (%s) on %s completed, files valid=%v", e, desc, filepath.Base(files[fi]), filesValid)
 		installedBefore := installedCanon(runner.VerifDefs())
 		// let time pass: less than, about, or more than one poll interval
-		d := []time.Duration{time.Second, 29 * time.Second, 31 * time.Second, 61 * time.Second, 0}[r.tape.Pick(5)]
-		if d > 0 {
-			time.Sleep(d)
-			synctest.Wait()
-		}
+		d := []time.Duration{time.Second, 29 * time.Second, 31 * time.Second, 61 * time.Second, 0, 300 * time.Millisecond, 29700 * time.Millisecond}[r.tape.Pick(7)]
+		midEdited := advance(d, true)
 		r.logf("advance %v", d)
+		if midEdited {
+			d = 0 // the files changed again on the way: nothing can be demanded before another poll interval has passed
+		}
 		checkInstalled(fmt.Sprintf("edit %d (%s), %v later", e, desc, d), filesValid && d > pollInterval)
 		if filesValid && d > pollInterval {
 			r.stats.Probes["edit_checked_after_poll"]++
@@ -682,10 +780,9 @@ func (r *reloadRun) execute() error {
 	}
 	// final: repair everything, wait two polls, must converge
 	for k, f := range files {
-		_ = os.WriteFile(f, renderFile(model[k]), 0o644)
+		_ = writeStamped(f, renderFile(model[k]))
 	}
-	time.Sleep(2*pollInterval + time.Second)
-	synctest.Wait()
+	advance(2*pollInterval+time.Second, false)
 	r.step++
 	checkInstalled("at the end, two poll intervals after the last edit", true)
 
